@@ -19,7 +19,7 @@ EXPLANATION = (
     "message's sequence number (comparison with the expected number, or the enforce/sequence_check verdict); R20.2 "
     "handle_sequence_reset: case split on NewSeqNo vs expected covers >=/< ; '>=' assigns expected := NewSeqNo - 1 and process() adds "
     "exactly 1 afterwards; '<' only throws; R20.3 in sequence_check no throw is reachable in the seqnum > expected case; R20.6 explicit start numbers: the initiator applies the parameters of this start() call, _req_next_* are stored only on the acceptor path (rule of C16 R16.5); R20.5 the acceptor's reset decision reads the VALUE of ResetSeqNumFlag; R20.4 a PossDup replay is refused only for OrigSendingTime strictly after SendingTime (rule of C19 R19.2). "
-    "NOT decided: histories, replays, delivery.")
+    "R20.7 after a served ResendRequest the state is continuous again on every path; R20.8 enforce() delivers exactly what sequence_check accepts (rule of C19 R19.2). NOT decided: histories, replays, delivery.")
 
 S = 'FIX8::Session::'
 RECV = S + '_next_receive_seq'
@@ -209,6 +209,31 @@ def run(ctx):
               [t.loc for t in thr])
     # R20.4 replayed messages (PossDup, number below the expected one) are refused only when OrigSendingTime is strictly later than SendingTime
     c19.origsendingtime_rule(ctx, sc, 'R20.4', prog)
+    # R20.8 what sequence_check accepts is delivered: the replay a conformant counterparty sends for a gap arrives below the expected number with PossDupFlag
+    # (the receive counter already ran ahead, see the known finding R20.1) and must not be dropped by the gate
+    c19.enforce_gate_rule(ctx, prog, 'R20.8')
+    # R20.7 once a ResendRequest has been served the session is continuous again, whatever the range held: the completion branch of retrans_callback
+    # (reached on every path of both range gets, C18 R18.2) or handle_resend_request itself restores the state unconditionally
+    def to_state(c, name):
+        return c.callee_qp == S + 'do_state_change' and c.args and any(x.k == 'DeclRefExpr' and x.decl is not None and x.decl.get('n') == name for x in c.args[0].walk())
+    rc_ = prog.fn1(S + 'retrans_callback')
+    hr_ = prog.fn1(S + 'handle_resend_request')
+    ctx.saw(rc_), ctx.saw(hr_)
+    rcc, hrc = rc_.cfg, hr_.cfg
+    cont_cb = [c for c in rc_.calls() if to_state(c, 'st_continuous') and rcc.has_vertex(c)]
+    nm = q.branches(rc_, lambda a: any(x.k == 'MemberExpr' and x.decl is not None and x.decl.get('n') == '_no_more_records' for x in a.walk()))
+    ok_cb = False
+    if len(nm) == 1 and cont_cb:
+        starts = q.atom_edge(rcc, nm[0], True)
+        ok_cb = q.escape_path(rcc, starts, q.verts(rcc, cont_cb)) is None
+    recv = [c for c in hr_.calls() if to_state(c, 'st_resend_request_received') and hrc.has_vertex(c)]
+    cont_hr = [c for c in hr_.calls() if to_state(c, 'st_continuous') and hrc.has_vertex(c)]
+    ctx.need(recv, 'handle_resend_request: do_state_change(st_resend_request_received) not found')
+    ok_hr = bool(cont_hr) and all(q.escape_path(hrc, [x for (x, lab) in hrc.succ[hrc.vertex_of(r_)]], q.verts(hrc, cont_hr)) is None for r_ in recv)
+    ctx.check(ok_cb or ok_hr, 'R20.7', S + 'handle_resend_request#continuous-again', recv[0].loc,
+              'after serving a ResendRequest the state returns to continuous on every path (%s)' % ('in the completion branch of retrans_callback' if ok_cb else 'in handle_resend_request'),
+              'the return to st_continuous after a served ResendRequest is conditional (e.g. on the number of records replayed): a request whose range holds no stored '
+              'application message leaves the session in st_resend_request_received, where the next inbound gap throws InvalidMsgSequence and ends the session')
     reset_by_value_rule(ctx, prog, 'R20.5')
     from . import c16 as _c16
     _c16.start_numbers_rule(ctx, prog, 'R20.6')
